@@ -6,8 +6,8 @@ open Conv
 open Proto_link
 
 let () =
-  register "push0" (fun () -> mk_proto push_init push_step push_poll false);
-  register "push0_raw" (fun () -> mk_proto push_init push_step push_poll false);
+  register "push0" (fun () -> mk_proto push0_init push0_step push0_poll false);
+  register "push0_raw" (fun () -> mk_proto push0_init push0_step push0_poll false);
   register "pull0" (fun () -> mk_proto pull_init pull_step pull_poll false);
   register "pull0_raw" (fun () -> mk_proto pull_init pull_step pull_poll false);
   main ()
